@@ -308,6 +308,52 @@ PROPS = {
              "URI, duplicates) x child order, comments, XML declaration, junk element, missing trailer; distinct by text",
         trusted=["iri-string URI parsing (oracle)", "quick-xml tokenisation"],
     ),
+    "C16": dict(
+        thm=["Bgpfu.Thm.C16"],
+        # cfg=pinned: the correspondence rows are compared with the model of the candidate reader as it is in /repo
+        # now; switch to cfg=fixed once the proposed repair of fetch.rs (skip statements with other content, accept
+        # <then> once) is in /repo. The theorems are about FCfg.fixed; FCfg.pinned has _partial / _cex.
+        ops=[("cands", ["cfg=fixed"])],
+        level_text="Theorems over ALL configurations of the configuration grammar (any number/mix of policy-statements; per "
+                   "statement any attribute list -- any order, duplicates incl. the duplicate xmlns:jcmd, unrelated attributes, any "
+                   "number of jcmd:active / jcmd:comment attributes with any values -- and any body: names, then elements with "
+                   "arbitrary children, other elements, empty elements, text, CDATA, comments in any order; comments between "
+                   "all levels; any qualified names) and over ALL parser / unescape oracles: the event-level model of "
+                   "Policies<Candidate>::read_xml with the proposed repair returns exactly `select` -- the active, annotated, "
+                   "default-reject statements with the unescaped <name> text and the parser's verdict on exactly the annotation "
+                   "text, in document order, or the duplicate-name error (candidates_eq_select, names_exprs_exact, "
+                   "every_managed_selected); an inactive / unannotated / other-content statement does not influence the result "
+                   "at all (inactive_never_selected, unannotated_never_selected, other_content_never_selected); the model never "
+                   "runs out of fuel on ANY event list (readCandidates_total). For the code as it is in /repo: the same equality "
+                   "under the hypothesis that no annotated active statement has other content "
+                   "(candidates_eq_select_pinned_partial) and counter-examples to the full statement "
+                   "(other_content_fails_read_cex, then_accept_fails_read_cex, extra_then_selected_cex).",
+        level_note="Theorems are about Model/Fetch.lean over quick-xml event lists; tokenisation, namespace resolution, attribute "
+                   "unescaping and read_text spans are observed by the harness and trusted. The rpsl parser and "
+                   "quick_xml::escape::unescape enter as oracles (theorems hold for every oracle; the run uses the real "
+                   "libraries). The string-level definition of `an annotation of the form bgpfu-fltr: <expression>` "
+                   "(trim_matches / trim / strip_prefix on List Char, `annotationRaw`) is shared by model and specification. "
+                   "A statement whose expression does not parse is selected as managed-but-unevaluable (FExpr.malformed, the "
+                   "C03 repair). The verif facade does not tell Parsed from Malformed; the harness re-parses the Display text.",
+        rule="op `cands`: generated get-config replies through agent::verif::read_candidates. Exhaustive: every attribute "
+             "sequence of length <= 3 (thorough 4) over {xmlns:jcmd, active=false, active=true, annotation, malformed "
+             "annotation, plain comment, x:active=false} on a default-reject statement; every such sequence of length <= 2 x 32 "
+             "body shapes (orders, comments, double reject, empty/missing then, term before/after, then accept, reject+other, "
+             "extra then, second name, empty element, text, CDATA, nameless, <reject></reject>, <then/>, <name/>, PI, bad entity, "
+             "nested element in name) next to a well-formed managed statement; 6x6 duplicate-name pairs (managed / malformed / "
+             "unannotated / inactive / no reject / other content), escaped-name pairs; 8 document shapes x comments; every "
+             "expression x decoration x prefix form x escaping/quoting style; malformed attribute material at every position. "
+             "Random: 1-6 statements with shuffled / duplicated attributes, 9 decorations, 6 prefix forms, 8 parseable and 6 "
+             "malformed expressions, 10 names with XML metacharacters, escaping variants (entity / numeric references, "
+             "single / double quotes), indentation, comments, document shapes. A case is distinct by its descriptor "
+             "(style, shape, statement list). corr rows: all cases; spec rows: cases inside the grammar.",
+        trusted=["quick-xml 0.31 tokenisation, namespace resolution, attribute unescaping, read_text spans (harness annotates events)",
+                 "rpsl MpFilterExpr::from_str / Display and quick_xml::escape::unescape (oracle tables computed by the harness)"],
+        assumptions=["Config.WF: jcmd:active / jcmd:comment attribute values and <name> texts are well-formed character data "
+                     "(unescapable); element contents hold no element of the enclosing element's own name (Inert); every "
+                     "statement has a <name> (list key); <reject></reject> (start/end form) is not recognised as reject "
+                     "(C13 known finding empty-form@reject)"],
+    ),
     "C14": dict(
         thm=["Bgpfu.Thm.C14", "Bgpfu.Thm.C05"],
         ops=[("fuzz", [])],
